@@ -647,7 +647,10 @@ class _debug_logging:
         if self.active:
             import logging
             logger = logging.getLogger('valjean')
-            self.saved = (logger.level, logger.handlers[:], logger.propagate)
+            self.saved = (logger.level, logger.handlers[:], logger.propagate,
+                          logging.root.manager.disable)
+            # (the shards silence logging globally)
+            logging.disable(logging.NOTSET)
             logger.handlers[:] = [logging.NullHandler()]
             logger.propagate = False
             logger.setLevel(logging.DEBUG)
@@ -659,6 +662,7 @@ class _debug_logging:
             logger.setLevel(self.saved[0])
             logger.handlers[:] = self.saved[1]
             logger.propagate = self.saved[2]
+            logging.disable(self.saved[3])
         return False
 
 
